@@ -3,13 +3,13 @@ CONSTANTS
   Annots <- AnTiny
   OvChoices <- OvTiny
   DfChoices <- DfTiny
-  SpChoices <- SpBoth
+  SpChoices <- SpNone
   BoundVals = {24}
   MaxFuncs = 2
   MaxParams = 2
   MaxTotal = 2
   MaxBound = 1
-  MaxVariants = 2
+  MaxVariants = 1
   MinEmit = 2
   SimMode = FALSE
 INVARIANT InvWellFormed
